@@ -107,7 +107,7 @@ def perturb(c):
             mk = lambda v: K.Atom(l.base, K.UnaryFeature(v))
         else:
             f = l.feature
-            alts = [((f.kv1[0], 'X1'), f.kv2, f.kv3), (f.kv1, (f.kv2[0], 'zz'), f.kv3), ((f.kv1[0], 'X1'), (f.kv2[0], 'X2'), (f.kv3[0], 'X3'))]
+            alts = [((f.kv1[0], 'X1'), f.kv2, f.kv3), (f.kv1, (f.kv2[0], 'zz'), f.kv3), ((f.kv1[0], 'X1'), (f.kv2[0], 'X2'), (f.kv3[0], 'X3')), (f.kv1, f.kv2, (f.kv3[0], 'zz'))]
             mk = lambda v: K.Atom(l.base, K.TernaryFeature(*v))
         for a in alts:
             na = mk(a)
@@ -141,7 +141,7 @@ def perturb(c):
 
 POOL_EN = ['S[dcl]', 'S[X]', 'NP', 'NP[nb]', 'N', 'S\\NP', 'S[X]\\NP', 'NP/N']
 DEEP_EN = ['((S\\NP)/(S[to]\\NP[expl]))/NP', '(S[dcl]\\NP[thr])/PP', 'N/(S[b]\\NP)', '(S\\NP[nb])/((S\\NP)/PP)', '((S[dcl]\\NP)/NP)/(S[X]\\NP)']
-DEEP_JA = ['(S[mod=nm,form=base,fin=f]\\NP[case=ga,mod=nm,fin=f])/(S[mod=nm,form=cont,fin=f]\\NP[case=o,mod=nm,fin=f])',
+DEEP_JA = ['NP[case=X1,mod=X2,fin=f]\\NP[case=X1,mod=X2,fin=f]', '(S[mod=nm,form=base,fin=f]\\NP[case=ga,mod=nm,fin=f])/(S[mod=nm,form=cont,fin=f]\\NP[case=o,mod=nm,fin=f])',
            '(S[mod=nm,form=base,fin=f]\\NP[case=ga,mod=nm,fin=f])\\NP[case=o,mod=nm,fin=f]',
            'NP[case=nc,mod=nm,fin=f]/(S[mod=adn,form=base,fin=f]\\NP[case=ga,mod=nm,fin=f])',
            '((S[mod=nm,form=base,fin=f]\\NP[case=ga,mod=nm,fin=f])/(S[mod=X1,form=X2,fin=X3]\\NP[case=ni,mod=nm,fin=f]))\\NP[case=o,mod=nm,fin=f]']
